@@ -5,9 +5,9 @@ GROUP = dict(
     driver='driver.cpp',
     spec='spec.h',
     aliases=[(AD, 'Adder'), ('babylon::', '')],
-    opaque_by_value=[AD],
-    extern_re=[r'GenericsConcurrentAdder<.*>::', r'^babylon::PageAllocator::'],
-    roots=[{'name': C + '::allocate', 'sig': 'void *()'}, {'name': C + '::allocate', 'sig': 'void **'}, {'name': C + '::deallocate', 'sig': 'void (void *)'}, {'name': C + '::deallocate', 'sig': 'void **'}, C + '::allocated_page_num'],
+    opaque_by_value=[AD, 'babylon::CachedPageAllocator', 'babylon::NewDeletePageAllocator'],
+    extern_re=[r'GenericsConcurrentAdder<.*>::', r'^babylon::PageAllocator::', r'^babylon::CachedPageAllocator::'],
+    roots=[{'name': C + '::allocate', 'sig': 'void *()'}, {'name': C + '::allocate', 'sig': 'void **'}, {'name': C + '::deallocate', 'sig': 'void (void *)'}, {'name': C + '::deallocate', 'sig': 'void **'}, C + '::allocated_page_num', 'babylon::PageHeap::allocate', 'babylon::PageHeap::deallocate', 'babylon::PageHeap::allocate_page_num'],
     reviewed_compiler_conditionals=[],
     assumptions=['ConcurrentAdder is a ghost counter here (operator<< adds, value() reads; its own contracts are in group c19_adder); the upstream allocator is a recording stub',
                  'page counts below 2^62 (the count is a signed 64-bit sum)'],
@@ -17,5 +17,8 @@ GROUP = dict(
         dict(id='C17.counting.deallocate1', enforce='CountingPageAllocator_deallocate__voidP'),
         dict(id='C17.counting.deallocate_n', enforce='CountingPageAllocator_deallocate__voidPP_u64'),
         dict(id='C17.counting.allocated_page_num', enforce='CountingPageAllocator_allocated_page_num'),
+        dict(id='C17.heap.allocate', enforce='PageHeap_allocate'),
+        dict(id='C17.heap.deallocate', enforce='PageHeap_deallocate'),
+        dict(id='C17.heap.allocate_page_num', enforce='PageHeap_allocate_page_num'),
     ],
 )
